@@ -1,7 +1,7 @@
 #!/bin/sh
 # tools/run_all.sh <quick|thorough> [seed]   - runs every check sequentially, prints a summary table
 tier=${1:-quick}; seed=${2:-1}
-cd "$(dirname "$0")/.."
+cd "$(dirname "$0")/.." && mkdir -p .work
 for i in 01 02 03 04 05 06 07 08 09 10 11 12 13 14 15 16 17 18; do
   s=$(date +%s)
   VERIF_SEED=$seed ./bin/check C$i $tier > .work/out-C$i-$tier.log 2>&1
